@@ -104,6 +104,26 @@ def prune_across_devices(ctx, forest):
                            "expected": [x.decode() for x in want], "exit": str(code)})
 
 
+def depth_before_next_entry(ctx, forest):
+    """with -depth a directory is evaluated when the walk leaves it, that is before the next entry is examined: a -quit on it ends the
+    run before a later sibling that cannot be read is diagnosed (Walk.defer: the pending directories come before the next event)"""
+    d = os.path.join(forest.dir, b"dq")
+    os.makedirs(os.path.join(d, b"c"))
+    open(os.path.join(d, b"c", b"h"), "wb").close()
+    os.symlink(b"d", os.path.join(d, b"d"))             # d -> d: cannot be followed (ELOOP)
+    for args, want, wcode in ((["-L", "dq", "-sorted", "-depth", "-name", "c", "-print0", "-quit"], b"dq/c\0", 0),
+                              (["-L", "dq", "-sorted", "-depth", "-print0"], b"dq/c/h\0dq/c\0dq\0", 1),
+                              (["-L", "dq", "-sorted", "-name", "c", "-print0", "-quit"], b"dq/c\0", 0)):
+        line = "find - %s %s" % (fw.hexs(forest.dir), xc.hexlist([a.encode() for a in args]))
+        code, out, err = wc.decode_find(xc.run_impl([line])[0])
+        ctx.count(("depth-before-next-entry", tuple(args)), True, "depth-before-next-entry")
+        if out != want or code != wcode or (wcode == 0 and err):
+            ctx.violation("find %s: %r, exit %s, diagnostics %r; the directory is evaluated before the next entry is examined: %r, exit %d"
+                          % (" ".join(args), out, code, err[:80], want, wcode),
+                          {"property": "C03", "kind": "depth-before-next-entry", "find_args": args, "output": fw.hexs(out), "exit": str(code),
+                           "stderr": err.decode("utf-8", "replace")[:200], "expected": fw.hexs(want), "expected_exit": wcode})
+
+
 def delete_implies_depth(ctx, forest):
     """-delete implies -depth: the visit order printed before the removal is post-order"""
     rng = ctx.rng
@@ -138,6 +158,7 @@ def run(ctx):
         known_finding(ctx, forest)
         delete_implies_depth(ctx, forest)
         prune_across_devices(ctx, forest)
+        depth_before_next_entry(ctx, forest)
     finally:
         forest.close()
 
